@@ -31,7 +31,7 @@ _SCOPE = ("Theorems quantify over every `ops : List Op` of the backend model: fr
 MANIFEST = {
     "C03": dict(
         technique="Lean 4 proof: conservation and dispatch invariants of the backend model over all schedules (per context accepted = popped ++ transit buffer ++ queue, byte-exact coherence with the proved bounded SPSC queue, every pop emits exactly the dispatch block, ids unique, at most once per sink over the whole log; transit ring buffer refines a FIFO); deterministic differential correspondence of the real Frontend/BackendWorker with the compiled model under a scheduler harness with hook-site injections + exactly-once/order/delivery oracles",
-        text=_SCOPE + "Proved for every schedule: C03_conservation (accepted = popped ++ buf ++ qStmts per context, in issue order), C03_queue_coherent (the pending statements are exactly the unread records of the queue, byte counts included), C03_empty_test_sound, C03_removed_drained (a context is dropped only invalid, empty, with accepted = popped), C03_dispatch_exact (one write per sink of the logger whose level and filters accept, in sink order, cut at the first throwing sink), C03_pop_emits_dispatch, C03_ids_unique, C03_at_most_once (number of ordinary writes of an id at a sink over the whole log <= multiplicity of the sink in its logger's list), C03_writes_only_of_popped; the TransitEventBuffer (growth from the reader position, slot reuse, shrink) refines a FIFO (C03_transit_refines, own correspondence stream on the real class). NOT proved as one global statement: the lower bound 'exactly once over the log' (it is proved per pop step — the block emitted is exactly the dispatch — plus the global upper bound). Tie: real Logger/macros/ThreadContextManager/BackendWorker (ManualBackendWorker) under a deterministic scheduler (virtual clock, parked frontend calls, injected operations), every observation line recomputed by the compiled Lean model; oracles on the recorded sink calls (exactly once, per-thread order, accepted => delivered after the drain) also on the two unbounded-queue builds.",
+        text=_SCOPE + "Proved for every schedule: C03_conservation (accepted = popped ++ buf ++ qStmts per context, in issue order), C03_queue_coherent (the pending statements are exactly the unread records of the queue, byte counts included), C03_empty_test_sound, C03_removed_drained (a context is dropped only invalid, empty, with accepted = popped), C03_dispatch_exact (one write per sink of the logger whose level and filters accept, in sink order, cut at the first throwing sink), C03_pop_emits_dispatch, C03_ids_unique, C03_at_most_once (number of ordinary writes of an id at a sink over the whole log <= multiplicity of the sink in its logger's list), C03_writes_only_of_popped; the TransitEventBuffer (growth from the reader position, slot reuse, shrink) refines a FIFO (C03_transit_refines, own correspondence stream on the real class). Exactly once over the WHOLE event log: C03_nothing_written_before_pop (a statement still queued or buffered has no write anywhere), C03_pop_writes_exactly (the pop leaves exactly one write per occurrence of each sink that accepts it at dispatch time; with a write fault only the sinks before the faulting one), C03_writes_frozen_after_pop (afterwards the count never changes, through every schedule), C03_exactly_once (their composition across one processing call and any later schedule; the acceptance decision is the one of the state in which that call starts). Tie: real Logger/macros/ThreadContextManager/BackendWorker (ManualBackendWorker) under a deterministic scheduler (virtual clock, parked frontend calls, injected operations), every observation line recomputed by the compiled Lean model; oracles on the recorded sink calls (exactly once, per-thread order, accepted => delivered after the drain) also on the two unbounded-queue builds.",
         note=_COMMON_NOTE, ref="§5 C03, §4.3, §9.1"),
     "C05": dict(
         technique="Lean 4 proof: ordering invariant over all schedules under the property's own grace-period premise (pop order sorted by timestamp); extraction of the sample-then-refresh order with a negative witness for the pinned order (F5); differential correspondence incl. registration inside the sampling window and inside the clock read",
@@ -39,11 +39,11 @@ MANIFEST = {
         note=_COMMON_NOTE + " rdtsc→epoch conversion is not modelled (System clock in the harness).", ref="§5 C05, §9.1, Appendix A.2"),
     "C06": dict(
         technique="Lean 4 proof: flag-after-flush invariants on the backend model for every schedule (flag only after the Flush event was popped, own statements popped first, every sink of every logger not yet erased flushed before the flag, other threads' strictly older statements popped under C05's hypotheses, request never dropped or counted); witnesses for F6 and F12; differential correspondence + oracle at the moment flush_log returns",
-        text=_SCOPE + "Proved: C06_flag_only_after_pop, C06_flag_numbers_unique (a caller is released only by its own Flush event), C06_own_statements_first (everything the caller's thread accepted earlier was popped — hence dispatched, C03 — before its Flush statement), C06_flush_step (processing the Flush event emits flushed / fthrow+notification for every active sink and only then raises the flag; a throwing flush blocks neither the other sinks nor the flag), C06_other_threads (grace != 0, C05 premise: every record of any thread with a strictly smaller timestamp has been popped when the flag is raised; equal clock values are a tie and not claimed), C06_flush_never_dropped (dropping and blocking queues: a refused request parks for a retry with nothing counted), C06_release. Findings proved as witnesses: F6 (pinned refresh order) and F12 (sinks of a logger marked for removal were skipped by the flush: C06_removed_logger_sink_not_flushed_unrepaired / _sink_flushed for the repaired, extracted flag value). PARTIAL on liveness: 'flush_log returns as long as the backend keeps running' is proved only as one-step progress facts (C06_progress_partial).",
+        text=_SCOPE + "Proved: C06_flag_only_after_pop, C06_flag_numbers_unique (a caller is released only by its own Flush event), C06_own_statements_first (everything the caller's thread accepted earlier was popped — hence dispatched, C03 — before its Flush statement), C06_flush_step (processing the Flush event emits flushed / fthrow+notification for every active sink and only then raises the flag; a throwing flush blocks neither the other sinks nor the flag), C06_other_threads (grace != 0, C05 premise: every record of any thread with a strictly smaller timestamp has been popped when the flag is raised; equal clock values are a tie and not claimed), C06_flush_never_dropped (dropping and blocking queues: a refused request parks for a retry with nothing counted), C06_release. Findings proved as witnesses: F6 (pinned refresh order) and F12 (sinks of a logger marked for removal were skipped by the flush: C06_removed_logger_sink_not_flushed_unrepaired / _sink_flushed for the repaired, extracted flag value). Progress ('flush_log returns as long as the backend keeps running'): C06_flush_log_returns_partial / C06_flush_log_returns_after_grace_partial — from any reachable state of any configuration with the backend running and a COMMITTED Flush request, once every pending record is past its grace period (or after a clock tick >= grace), every continuation of quiet polls and ticks with at least as many polls as there are pending records ends with the flag raised and the caller's resume answers done (single-event and batch mode, every soft/hard limit; each quiet poll pops at least one event while anything is pending). PARTIAL: a caller still parked on the retry of a refused Flush request is not covered by that theorem (it needs the end-to-end form of C09: a drained queue grants the retry).",
         note=_COMMON_NOTE, ref="§5 C06, §7 F6 F12, §9.1"),
     "C08": dict(
         technique="Lean 4 proof: accounting invariants on the backend model for every schedule (discarded + blocked = reported + pending counters; ret=1 iff appended, ret=0 iff counted; control requests retried, never counted; a reclaimed context has a zero counter under the extracted F24 flag); witnesses for F17/F24 in all flag combinations; differential correspondence on the BoundedDropping build + drop-count oracle",
-        text=_SCOPE + "Proved: C08_accounting (sum of discarded statements and blocking episodes = reported through the notifier + sum of the per-context counters, over all contexts ever created), C08_dropped_equals_reported_plus_pending (dropping queue), C08_log_call_outcome (a log call returns true iff the statement is appended to the accepted history and no counter moves, false iff nothing is appended and the counter and the discarded count grow by one), C08_control_request_retried / _retry_reattempts / _control_kinds (flush, backtrace init/flush, removal requests are parked and re-attempted, never counted), C08_removed_context_reported (removed => counter 0 in every reachable state, under the extracted flag of the F24 repair), delivered statements intact and in order via C03. Witnesses by `decide`: the F17 and F24 schedules lose a count for the unrepaired flag values and report it for the repaired ones. PARTIAL: full quiescence ('after an idle pass every counter is reported') is proved under the assumption that the cache covers the registry (C08_idle_pass_drains_counters_partial).",
+        text=_SCOPE + "Proved: C08_accounting (sum of discarded statements and blocking episodes = reported through the notifier + sum of the per-context counters, over all contexts ever created), C08_dropped_equals_reported_plus_pending (dropping queue), C08_log_call_outcome (a log call returns true iff the statement is appended to the accepted history and no counter moves, false iff nothing is appended and the counter and the discarded count grow by one), C08_control_request_retried / _retry_reattempts / _control_kinds (flush, backtrace init/flush, removal requests are parked and re-attempted, never counted), C08_removed_context_reported (removed => counter 0 in every reachable state, under the extracted flag of the F24 repair), delivered statements intact and in order via C03. Witnesses by `decide`: the F17 and F24 schedules lose a count for the unrepaired flag values and report it for the repaired ones. Never both: C08_dropped_call_id_unplaced, C08_unplaced_forever, C08_discarded_never_written (the id of a refused call is in no accepted history or parked call, stays so through every schedule, and is never written at any sink). Quiescence: C08_cache_covers_registry, C08_idle_pass_drains_counters, C08_quiescent_all_reported (from a freshly started system, after ANY schedule followed by one idle poll with nothing injected, every counter of every context ever created is 0 and the discarded statements equal the reported ones). The counter protocol itself (fetch_add against load+exchange) is one atomic step in this model; its structure is an extraction obligation (counterResetAtomic) and, when present, a separate interleaving model (Reg bundle).",
         note=_COMMON_NOTE, ref="§5 C08, §7 F17 F24, §9.1"),
     "C10": dict(
         technique="Lean 4 proof: fault locality on the backend model with arbitrary write_log / flush_sink fault schedules for every schedule (conservation and at-most-once survive, the event is popped on every path, a write fault splits the sink list at the first accepting thrower and touches nothing else, a flush visits every sink and raises its flag); differential correspondence with throwing recording sinks",
